@@ -892,6 +892,20 @@ def rule_PO(run: Run) -> RuleResult:
             shown_ = k_.replace("Child(", "self.").rstrip(")") if k_.startswith("Child(") else k_
             res.add(f"{cls.qualname}.keys:literal key {shown_} reported only when present", guarded, owner.module.relpath, fn.lineno,
                     f"{{{shown_}}} " + ("only on paths that established" if guarded else "also on a path that did not establish") + f" dotted_key_exists({shown_}, options)", nec)
+        # explain() names the keys a part would read whether they are there or not: what it answers is no part of keys(), unless each key
+        # was tested for presence in the caller's options
+        from_explain = []
+        for p in ps:
+            rk_ = p.ret.key() if p.ret is not None else ""
+            if "Val(explain," not in rk_:
+                continue
+            tested = rk_.count("Val(explain,") == rk_.count("elem(Val(explain,") and any(
+                e.kind == "filter" and e.target is not None and "dotted_key_exists(elem(Val(explain," in e.target.key() and e.target.key().rstrip(")").endswith("," + optp_) for e in p.events)
+            if not tested:
+                from_explain.append(rk_[:100])
+        if from_explain or any("Val(explain," in (p.ret.key() if p.ret is not None else "") for p in ps):
+            res.add(f"{cls.qualname}.keys:reports nothing taken from explain() untested", not from_explain, owner.module.relpath, fn.lineno,
+                    f"returns {from_explain[0]}: explain() also lists keys that are absent from the options" if from_explain else "every key taken from explain() is tested with dotted_key_exists", nec)
         for n in astu.walk_no_nested(fn):
             if isinstance(n, ast.Call) and astu.short_name(n) == "set" and n.args:
                 a = ast.unparse(n.args[0])
